@@ -13,6 +13,7 @@ package verifsim
 import (
 	"fmt"
 	"hash/fnv"
+	"os"
 	"runtime"
 	"runtime/debug"
 	"sort"
@@ -81,6 +82,7 @@ type Sim struct {
 	wake     chan struct{}
 	pos      int
 	start    time.Time
+	draws0   uint64
 	rootG    uint64
 	stall    time.Duration
 
@@ -211,10 +213,15 @@ func (s *Sim) Logf(format string, args ...any) {
 	line := fmt.Sprintf(format, args...)
 	fmt.Fprintf(s.h, "%d|%s\n", s.seq, line)
 	if s.trace && len(s.res.Log) < 4000 {
+		if debugDraws {
+			line += fmt.Sprintf(" [draws=%d]", runtime.VerifDraws()-s.draws0)
+		}
 		s.res.Log = append(s.res.Log, fmt.Sprintf("%04d t=%v %s", s.seq, time.Since(s.start), line))
 	}
 	s.mu.Unlock()
 }
+
+var debugDraws = os.Getenv("VERIF_DEBUGDRAWS") != ""
 
 // Seq returns a fresh global event sequence number (for history stamping).
 func (s *Sim) Seq() int64 {
@@ -523,6 +530,8 @@ func Run(t *testing.T, cfg Config, trace bool, body func(s *Sim)) *Result {
 		synctest.VerifRun(func() {
 			s.wake = make(chan struct{}, 1)
 			s.start = time.Now()
+			s.draws0 = runtime.VerifDraws()
+			runtime.VerifTraceDraws(os.Getenv("VERIF_DRAWWIN") != "" && trace)
 			s.rootG = runtime.VerifGoid()
 			s.cur = s.gidOf(s.rootG)
 			active.Store(s)
@@ -537,6 +546,26 @@ func Run(t *testing.T, cfg Config, trace bool, body func(s *Sim)) *Result {
 		})
 	}()
 	res.Fingerprint = s.h.Sum64()
+	if w := os.Getenv("VERIF_DRAWWIN"); w != "" && trace {
+		// debugging aid: symbolised call stacks of the draws lo..hi of this run
+		var lo, hi uint64
+		fmt.Sscanf(w, "%d:%d", &lo, &hi)
+		for i := lo; i <= hi; i++ {
+			pcs := runtime.VerifDrawStack(s.draws0 + i)
+			line := fmt.Sprintf("DRAW %d:", i)
+			fr := runtime.CallersFrames(pcs)
+			for {
+				f, more := fr.Next()
+				if f.Function != "" {
+					line += " " + f.Function
+				}
+				if !more {
+					break
+				}
+			}
+			res.Log = append(res.Log, line)
+		}
+	}
 	return res
 }
 
